@@ -1376,6 +1376,11 @@ class Interp:
         if b.obj is not None and b.obj in st.heap and b.kind != "cfgval":
             dep |= st.heap[b.obj].dep
         kind = "arr"
+        if shape == () and is_view:
+            # every axis indexed by an integer: numpy returns a scalar (a copy), not a view
+            is_view = False
+            kind = "num"
+            shape = None
         res = Val(
             kind,
             dep=dep,
